@@ -41,6 +41,12 @@ def sortedSnaps : List BcSnap → Bool
   | [_] => true
   | a :: b :: rest => a.snap.le b.snap && sortedSnaps (b :: rest)
 
+/-- snaps strictly ascending: no two changes at the same position -/
+def strictSnaps : List BcSnap → Bool
+  | [] => true
+  | [_] => true
+  | a :: b :: rest => a.snap.lt b.snap && strictSnaps (b :: rest)
+
 /-- The fractional part of the beat distance between consecutive changes is a grid value — the hypothesis
 `TimingMap` forces by storing only millisecond offsets and re-snapping every change on every query (D22). -/
 def gridCompatible (g : List Rat) : List BcSnap → Bool
@@ -116,5 +122,28 @@ def timeInfo (g : List Rat) (t0 : Rat) (cs : List BcSnap) (t : Rat) : TimeInfo :
     let r := frac d
     let on := g.contains r
     ⟨false, on, bl, B + d, if on then none else some (tieMargin g r)⟩
+
+/-- the tempo segment in force at time `t`: (time of its change, cumulative beats at its change, the change) -/
+def segAtAux (T B : Rat) (cur : BcSnap) : List BcSnap → Rat → Rat × Rat × BcSnap
+  | [], _ => (T, B, cur)
+  | n :: rest, t =>
+    if T + snapDist cur.snap n.snap cur.met * beatLen cur.bpm ≤ t then
+      segAtAux (T + snapDist cur.snap n.snap cur.met * beatLen cur.bpm) (B + snapDist cur.snap n.snap cur.met) n rest t
+    else (T, B, cur)
+
+/-- what the specification says about a millisecond time `t`, by recursion over the (sorted) change list — the
+form the round-trip and beats theorems of `Props/C10.lean` are stated against (`OnGridAt`, `activeBeatLen`,
+`beatAt` are its components) -/
+def timeInfo2 (g : List Rat) (t0 : Rat) (cs : List BcSnap) (t : Rat) : TimeInfo :=
+  match cs with
+  | [] => ⟨true, false, 0, 0, none⟩
+  | c :: rest =>
+    if t < t0 then ⟨true, false, 0, 0, none⟩ else
+    let s := segAtAux t0 0 c rest t
+    let bl := beatLen s.2.2.bpm
+    let d := (t - s.1) / bl
+    let r := frac d
+    let on := g.contains r
+    ⟨false, on, bl, s.2.1 + d, if on then none else some (tieMargin g r)⟩
 
 end Reamber.Timing
